@@ -328,7 +328,7 @@ func c11Arrange(asc []time.Duration, order int) []time.Duration {
 
 func TestC11(t *testing.T) {
 	R := ev.New("C11")
-	R.Rule = "(c) constant inputs for every value 1..V ns and around every power of 2 and 10; (a) every sequence of length 1..6 over {1,2,3,1e3,1e6,1e12}ns, with and without a Close after every Add; (b) 8 structured families (constant, ramp, bimodal with a 1e9 gap at the 50/90/95/99% split, geometric plateaus, saw-tooth) for every n in 1..N (quick: additionally n=500,600..3000) and two-valued inputs with every split k/n for n<=60, each in sorted, reversed and interleaved arrival order; a case is distinct+non-trivial when its (arrival sequence, close mode) differs and it holds at least two different latencies (otherwise no percentile can be mis-ordered or mis-ranked); (d) a lattice of data sets at 2^50..2^53 ns (3 base exponents x 8 offsets x spread 2^1..2^30 x 7 (13) sizes x 1 (4) congruential generators) through the hdrplot report and the order check"
+	R.Rule = "(c) constant inputs for every value 1..V ns and around every power of 2 and 10; (a) every sequence of length 1..6 over {1,2,3,1e3,1e6,1e12}ns, with and without a Close after every Add; (b) 8 structured families (constant, ramp, bimodal with a 1e9 gap at the 50/90/95/99% split, geometric plateaus, saw-tooth) for every n in 1..N (quick: additionally n=500,600..3000) and two-valued inputs with every split k/n for n<=60, each in sorted, reversed and interleaved arrival order; a case is distinct+non-trivial when its (arrival sequence, close mode) differs and it holds at least two different latencies (otherwise no percentile can be mis-ordered or mis-ranked); (d) a lattice of data sets at 2^50..2^53 ns (3 base exponents x 8 offsets x spread 2^1..2^30 x 7 (13) sizes x 1 (4) congruential generators) through the hdrplot report and the order check; (e) sets of 17 000 and 40 000 (thorough up to 300 000) latencies arriving with a period of 2..5 (targets hit round robin, one of them slow)"
 	R.Assume("random (uniform / log-normal) draws are outside a bounded exhaustive check; every n up to N is run for each structured family instead")
 	R.Assume("rank of an observed latency = its position in the sorted input counted from 0 or from 1, whichever is favourable, and with ties the favourable position (weaker reading: the statement fixes neither; the mid-point interpolation the estimator performs exactly for small n is within the bound for origin 0 and up to 0.5 rank outside for origin 1)")
 	alpha := []time.Duration{1, 2, 3, 1e3, 1e6, 1e12}
@@ -524,6 +524,7 @@ func TestC11(t *testing.T) {
 		}
 	}
 	c11Huge(R)
+	c11Large(R)
 	R.Finish(t)
 }
 
@@ -592,6 +593,52 @@ func c11Huge(R *ev.Run) {
 				R.Violation(f.key, f.detail)
 			}
 			R.Part("d_failing_sets", f.key, 1)
+		}
+	}
+}
+
+// ---- (e) large sets in arrival orders with a period ------------------------------
+// Several targets hit round robin give latencies with a period of 2..5 in the
+// order of arrival: n well beyond any batch size an estimator may have.
+func c11Large(R *ev.Run) {
+	type job struct {
+		n, period int
+	}
+	var jobs []job
+	for _, n := range ev.Pick([]int{17000, 40000}, []int{17000, 40000, 100000, 300000}) {
+		for _, p := range []int{2, 3, 4, 5} {
+			jobs = append(jobs, job{n, p})
+		}
+	}
+	found := make([][]c11Finding, len(jobs))
+	ev.Parallel(len(jobs), 16, func(i int) {
+		j := jobs[i]
+		lats := make([]time.Duration, j.n)
+		for k := range lats {
+			if k%j.period == j.period-1 {
+				lats[k] = 250*time.Millisecond + time.Duration(k%977)*time.Microsecond // the slow target
+			} else {
+				lats[k] = time.Duration(1+k%j.period)*time.Millisecond + time.Duration(k%991)*time.Microsecond
+			}
+		}
+		m := c11Run(lats, false)
+		R.Eval(1)
+		R.Trans(j.n + 1)
+		R.Distinct(fmt.Sprint("e", j))
+		fs := c11Check(m, c11Sorted(lats), fmt.Sprintf("round-robin-of-%d-targets", j.period), false)
+		for k := range fs {
+			fs[k].detail = map[string]any{"what": fs[k].detail, "n": j.n, "targets": j.period}
+		}
+		found[i] = fs
+	})
+	R.Part("e", "large periodic sets", len(jobs))
+	seen := map[string]bool{}
+	for _, fs := range found {
+		for _, f := range fs {
+			if !seen[f.key] {
+				seen[f.key] = true
+				R.Violation(f.key, f.detail)
+			}
 		}
 	}
 }
